@@ -12,6 +12,7 @@ Oracle (per upstream message carrying the case's req id):
 import os, random, threading, time
 from lab import base, httpref
 from lab.lab import Lab, run_cases, Resp, Conn
+from lab.x_relay import start_lab
 
 SIZES = [0, 1, 2, 3, 100, 1000, 4095, 4096, 4097, 8192, 16383, 16384, 16385, 32767, 32768, 32769, 65535, 65536, 65537,
          131072, 262143, 524289, 1048577]
@@ -158,7 +159,7 @@ def run(a, res):
         return None
 
     handler.before_body = before_body
-    lab = Lab(a, res, handler=handler, conf="cache deny all\nrequest_body_max_size 0\n")
+    lab = start_lab(a, res, handler=handler, conf="cache deny all\nrequest_body_max_size 0\n")
     wit = lambda c: {"seed": c["seed"], "case": c["n"]}
 
     def one(c):
